@@ -58,6 +58,9 @@ struct Views {
 
     // ---- after every step
     std::string check(bool fullLists) {
+        // Whether an attribute keeps its ID-ness when it is removed, re-attached, adopted, renamed or copied is not specified: the model
+        // adopts Attr::isId() after every step, and getElementById is judged against that (isId + value unique in the tree => found)
+        for (auto& sl : w.slots) if (!sl.dead && sl.r->type == refdom::ATTRIBUTE) sl.r->idAttr = ((DOMAttr*)sl.x)->isId();
         for (size_t i = 0; i < rgs.size(); i++) { RgV& r = rgs[i]; if (r.m->detached) continue;
             std::string inv = r.m->invalid(); if (!inv.empty()) return "harness:model-range-invalid|range " + std::to_string(i) + ": " + inv;
             DOMNode* sc = nullptr; DOMNode* ec = nullptr; XMLSize_t so = 0, eo = 0; bool col = false; const DOMNode* ca = nullptr;
